@@ -50,10 +50,12 @@ def okv(v):
 
 # ---- driving the real backend ---------------------------------------------------------------
 class Forced:
-    """minimize_bandwidth -> forced permutation; make_H / update_H recorded."""
+    """minimize_bandwidth -> forced permutation (perm=None: the real optimiser runs and its choice is recorded in
+    .chosen); make_H / update_H recorded."""
 
     def __init__(self, perm):
         self.perm = perm
+        self.chosen = None
         self.make_H, self.update_H = [], []
 
     def __enter__(self):
@@ -64,7 +66,15 @@ class Forced:
         self.mods = (optimat, impl_mod)
         self.saved = (optimat.minimize_bandwidth, impl_mod.make_H, impl_mod.update_H)
         me = self
-        optimat.minimize_bandwidth = lambda m, *a, **k: torch.tensor(me.perm)
+        real_minimize = optimat.minimize_bandwidth
+
+        def minimize(m, *a, **k):
+            if me.perm is not None:
+                return torch.tensor(me.perm)
+            me.chosen = real_minimize(m, *a, **k)  # the REAL optimiser, on the very tensor the backend passes in
+            return me.chosen
+
+        optimat.minimize_bandwidth = minimize
         real_make_H, real_update_H = impl_mod.make_H, impl_mod.update_H
 
         def make_H(**kw):
@@ -758,6 +768,182 @@ def judge_switch(ctx, c, out):
                        "finding_key": "reordering-changes-value-after-interaction-switch"})
     return None, True
 
+# ---- G. couplings of BOTH signs, chain order chosen by the REAL optimiser, through the real pulser adapter ----------
+# Stages A-F force the permutation (the optimiser itself is replaced) and use non-negative couplings.  Here nothing is
+# replaced: a pulser Sequence goes through PulserData -> SequenceData -> MPSBackendImpl with optimize_qubit_ordering on
+# and off, the interaction matrix has entries of both signs (user matrices for Rydberg and XY; XY register couplings
+# C3 (1 - 3 cos^2 theta) / r^3 with an in-plane magnetic field), optionally an SLM mask.
+#   exact:   every matrix make_H receives with reordering on == the matrix it receives with reordering off, conjugated by
+#            the permutation the optimiser chose (bit-identical, signs included);
+#   numeric: occupation / correlations / energy on == off, and both == the independent dense evolution built from the
+#            prescribed couplings (the reference run is validated against it; tolerance as in stage F).
+SIGNED_COND = 5e-4
+SIGNED_TOL = 1e-2
+
+
+def gen_signed_case(rng, nmax):
+    kind = rng.choice(["user-rydberg", "user-rydberg", "user-xy", "register-xy"])
+    n = rng.randint(3, nmax)
+    c = {"kind": kind, "n": n, "slm": [], "field": None, "matrix": None, "cutoff": 0.0}
+    order = list(range(n))
+    rng.shuffle(order)
+    if kind == "register-xy":
+        # a 2 x k ladder (or a line) filled in a shuffled insertion order; field with an in-plane component so that
+        # 1 - 3 cos^2 changes sign between the pair directions
+        sx, sy = rng.choice([18.0, 20.0, 22.0]), rng.choice([18.0, 20.0, 22.0])  # C3 / r^3 of a few rad/us
+        cells = [(sx * (k // 2), sy * (k % 2)) for k in range(n)] if rng.random() < 0.7 else [(sx * k, 0.0) for k in range(n)]
+        c["positions"] = [list(cells[order[a]]) for a in range(n)]
+        c["field"] = [round(rng.uniform(0.5, 1.0), 3) * rng.choice([1, -1]), round(rng.uniform(-0.5, 0.5), 3), round(rng.uniform(0.0, 0.6), 3)]
+        if rng.random() < 0.4:
+            c["slm"] = sorted(rng.sample(range(n), 1))
+    else:
+        c["positions"] = [[8.0 * a, 0.0] for a in range(n)]
+        # strong couplings of random sign along a shuffled path, weaker ones (random sign, some absent) elsewhere
+        m = [[0.0] * n for _ in range(n)]
+        for i in range(n):
+            for j in range(i):
+                if rng.random() < 0.6:
+                    m[i][j] = m[j][i] = round(rng.uniform(0.2, 1.5), 3) * rng.choice([1, -1])
+        for k in range(n - 1):
+            v = round(rng.uniform(3.0, 8.0), 3) * rng.choice([1, -1])
+            m[order[k]][order[k + 1]] = m[order[k + 1]][order[k]] = v
+        flat = [m[i][j] for i in range(n) for j in range(i)]
+        if not any(x < 0 for x in flat):
+            a, b = order[0], order[1]
+            m[a][b] = m[b][a] = -abs(m[a][b])
+        c["matrix"] = m
+        c["cutoff"] = rng.choice([0.0, 0.1])  # every non-zero entry has magnitude >= 0.2: no entry sits at the cutoff
+    xy = kind.endswith("xy")
+    c["pulses"] = [[150, round(2 * math.pi * rng.uniform(0.6, 1.0), 6), 0.0 if xy else round(rng.uniform(0.0, 3.0), 6), 0.0],
+                   [100, round(math.pi * rng.uniform(0.6, 1.0), 6), 0.0 if xy else round(rng.uniform(-4.0, 0.0), 6), 0.0]]
+    return c
+
+
+def signed_prescription(c, c3):
+    """(full matrix, matrix while the SLM mask is on) from the case and the device constant C3 -- independent of /repo"""
+    n = c["n"]
+    if c["matrix"] is not None:
+        full = [[0.0 if abs(x) < c["cutoff"] else x for x in row] for row in c["matrix"]]
+    else:
+        b = c["field"] + [0.0] * (3 - len(c["field"]))
+        bn = math.sqrt(sum(x * x for x in b))
+        full = [[0.0] * n for _ in range(n)]
+        for i in range(n):
+            for j in range(n):
+                if i != j:
+                    d = [c["positions"][i][0] - c["positions"][j][0], c["positions"][i][1] - c["positions"][j][1], 0.0]
+                    r = math.sqrt(sum(x * x for x in d))
+                    cos = sum(x * y for x, y in zip(d, b)) / (r * bn)
+                    full[i][j] = c3 * (1 - 3 * cos * cos) / r ** 3
+    return full, masked(full, c["slm"])
+
+
+def build_signed(c, optimize):
+    """(SequenceData, MPSConfig) through the real pulser adapter"""
+    import logging
+    import pulser
+    import torch
+    from emu_base import PulserData
+    from emu_mps import MPSConfig
+    from pulser.backend import Occupation, CorrelationMatrix, Energy
+
+    n, xy = c["n"], c["kind"].endswith("xy")
+    reg = pulser.Register({f"q{a}": tuple(c["positions"][a]) for a in range(n)})
+    seq = pulser.Sequence(reg, pulser.MockDevice)
+    seq.declare_channel("ch0", "mw_global" if xy else "rydberg_global")
+    if c["field"] is not None:
+        seq.set_magnetic_field(*c["field"])
+    if c["slm"]:
+        seq.config_slm_mask([f"q{a}" for a in c["slm"]])
+    for dur, amp, det, ph in c["pulses"]:
+        seq.add(pulser.Pulse.ConstantPulse(dur, amp, det, ph), "ch0")
+    kw = {}
+    if c["matrix"] is not None:
+        kw = {"interaction_matrix": torch.tensor(c["matrix"], dtype=torch.float64), "interaction_cutoff": c["cutoff"]}
+    cfg = MPSConfig(observables=[Occupation(evaluation_times=[1.0]), CorrelationMatrix(evaluation_times=[1.0]),
+                                 Energy(evaluation_times=[1.0])],
+                    dt=10, precision=1e-9, log_level=logging.ERROR, optimize_qubit_ordering=optimize, **kw)
+    return next(iter(PulserData(sequence=seq, config=cfg, dt=10).get_sequences())), cfg
+
+
+def run_signed_case(c):
+    import contextlib
+    import io
+    import numpy as np
+    import pulser
+    import torch
+    from emu_mps import MPSBackend
+    from props import _dense_ref as D
+
+    n = c["n"]
+    out = {"c3": float(pulser.MockDevice.interaction_coeff_xy)}
+    arrays = None
+    for mode in (True, False):
+        data, cfg = build_signed(c, mode)
+        arrays = (data.omega.numpy().copy(), data.delta.numpy().copy(), data.phi.numpy().copy(), list(data.target_times))
+        with Forced(None) as f, contextlib.redirect_stdout(io.StringIO()):  # emu-mps prints when it builds an XY MPO
+            r = MPSBackend._run_from_sequence_data(data, cfg)
+        out["on" if mode else "off"] = {
+            "perm": None if f.chosen is None else [int(x) for x in f.chosen],
+            "make_H": [m.tolist() for m in f.make_H],
+            "atom_order": list(r.atom_order),
+            "occupation": [float(x) for x in torch.as_tensor(r.occupation[-1]).real.flatten()],
+            "corr": [float(x) for x in torch.as_tensor(r.correlation_matrix[-1]).real.flatten()],
+            "energy": float(torch.as_tensor(r.energy[-1]).real)}
+    full, msk = signed_prescription(c, out["c3"])
+    om, de, ph, times = arrays
+    t_slm = float(c["pulses"][0][0]) if c["slm"] else -1.0
+    sts, _ = D.evolve(om, de, ph, lambda t: np.array(msk if t < t_slm else full), times, xy=c["kind"].endswith("xy"),
+                      u_query="mid")
+    out["dense"] = {"occupation": [float(x) for x in D.occupation(sts[-1], n)],
+                    "corr": [float(x) for x in D.correlation(sts[-1], n).flatten()]}
+    out["signs"] = {"negative": sum(1 for i in range(n) for j in range(i) if full[i][j] < 0),
+                    "positive": sum(1 for i in range(n) for j in range(i) if full[i][j] > 0)}
+    return out
+
+
+def judge_signed(ctx, c, out):
+    """returns (error text or None, judged numerically?)"""
+    def dmax(a, b):
+        return max(abs(x - y) for x, y in zip(a, b)) if len(a) == len(b) else float("inf")
+
+    def dev(a, b):
+        return max(dmax(a["occupation"], b["occupation"]), dmax(a["corr"], b["corr"]),
+                   abs(a["energy"] - b["energy"]) / max(1.0, abs(b["energy"])) if "energy" in a and "energy" in b else 0.0)
+
+    on, off, n = out["on"], out["off"], c["n"]
+    if on["perm"] is None or off["perm"] is not None or sorted(on["perm"]) != list(range(n)):
+        return f"the optimiser was expected to run exactly in the reordering-on run: on={on['perm']} off={off['perm']}", False
+    if not on["make_H"] or len(on["make_H"]) != len(off["make_H"]):
+        return f"make_H called {len(on['make_H'])} times with reordering on, {len(off['make_H'])} times with it off: case={c}", False
+    p = on["perm"]
+    rp = {"case": c, "stage": "signed", "permutation_chosen": p, "signs": out["signs"]}
+    for k, (a, b) in enumerate(zip(on["make_H"], off["make_H"])):
+        want = [[b[p[i]][p[j]] for j in range(len(p))] for i in range(len(p))]
+        if [[x.hex() for x in row] for row in a] != [[x.hex() for x in row] for row in want]:
+            flipped = sum(1 for ra, rw in zip(a, want) for x, y in zip(ra, rw) if x == -y and x != 0)
+            ctx.violation("with optimize_qubit_ordering on the Hamiltonian is built from a different interaction matrix than "
+                          f"with it off (make_H call {k}: not the reordering-off matrix conjugated by the chosen permutation; "
+                          f"{flipped} entries have the opposite sign): the qubit-order optimisation changes the physics",
+                          dict(rp, make_H_call=k, matrix_with_reordering=a, reordering_off_matrix_permuted=want,
+                               finding_key="reordering-changes-interaction-matrix"))
+            break
+    if on["atom_order"] != off["atom_order"]:
+        ctx.violation("atom_order differs between reordering on and off", dict(rp, observed=out, finding_key="atom-order-not-register-order"))
+    off_dev = max(dmax(off["occupation"], out["dense"]["occupation"]), dmax(off["corr"], out["dense"]["corr"]))
+    if off_dev > SIGNED_COND:
+        return None, False  # reference run not within the conditioning bound of the dense evolution: not judged numerically
+    devs = {"on-vs-off": dev(on, off), "on-vs-dense": dev(on, out["dense"])}
+    if max(devs.values()) > SIGNED_TOL:
+        ctx.violation("with couplings of both signs the qubit reordering (real optimiser) changes the reported values: "
+                      f"{({k: round(v, 4) for k, v in devs.items()})}; occupation {[round(x, 4) for x in on['occupation']]} vs "
+                      f"{[round(x, 4) for x in off['occupation']]}, energy {on['energy']:.4f} vs {off['energy']:.4f}; reordering "
+                      f"off agrees with the dense reference to {off_dev:.1e}",
+                      dict(rp, observed={k: {q: v[q] for q in v if q != "make_H"} for k, v in out.items() if k in ("on", "off", "dense")},
+                           deviations=devs, finding_key="reordering-changes-value-with-signed-couplings"))
+    return None, True
+
+
 # ---- D. whitelist --------------------------------------------------------------------------------
 def whitelist_table():
     import pulser.backend as pb
@@ -937,6 +1123,33 @@ def run(ctx):
     ctx.obligation("falsifier:time-dependent interactions, reordering on == off == dense reference (ran on the real "
                    "backend; reference run validated against the dense evolution)", not serr, serr, kind="falsifier")
 
+    # G. couplings of both signs, the REAL optimiser chooses the order, through the real pulser adapter
+    gerr = ""
+    gcorpus = [c["case"] for c in corpus if c.get("stage") == "signed"]
+    want, judged, tries, n_neg = ctx.n(4, 40) + len(gcorpus), 0, 0, 0
+    while judged < want and tries < 2 * want + 2:
+        c = gcorpus[tries] if tries < len(gcorpus) else gen_signed_case(ctx.rng, ctx.n(5, 6))
+        tries += 1
+        out = None
+        try:
+            out = run_signed_case(c)
+            e, was_judged = judge_signed(ctx, c, out)
+        except Exception as ex:  # noqa: BLE001
+            e, was_judged = f"{type(ex).__name__}: {ex} case={c}"[:600], False
+        judged += 1 if was_judged else 0
+        moved = bool(out and out["on"]["perm"] not in (None, sorted(out["on"]["perm"])))
+        n_neg += 1 if (out and out["signs"]["negative"] > 0) else 0
+        ctx.count_case({"stage": "signed", **c}, was_judged and moved)
+        key = f"signed/{c['kind']}" + ("/slm" if c["slm"] else "") + ("" if was_judged else "/exact-only")
+        hist[key] = hist.get(key, 0) + 1
+        gerr = gerr or (e or "")
+    if judged < max(1, want // 2) or n_neg < max(1, want // 2):
+        gerr = gerr or f"only {judged} numerically judged cases / {n_neg} cases with negative couplings out of {tries}"
+    ctx.obligation("falsifier:couplings of both signs (user matrices, XY register couplings with an in-plane field, SLM), order "
+                   "chosen by the real optimiser: make_H matrix on == permuted make_H matrix off (bit-exact), reported values "
+                   "on == off == dense reference (ran on the real backend through the real pulser adapter)",
+                   not gerr, gerr, kind="falsifier")
+
     # which variant does the code follow?
     rv = sorted(flags["routing"] or [])
     variant = {"v_drives": [d for d, _ in rv], "v_mask": [m for _, m in rv], "v_tags": sorted(tags_variants),
@@ -954,12 +1167,19 @@ def run(ctx):
     ctx.rule = ("routing: forced random permutations n=2..6; every row (3 time steps) of omega, delta and phi with pairwise "
                 "distinct per-atom values and distinct interaction entries, with and without bad atoms; results: random Results objects (bare and suffixed tags, 1-3 times); "
                 "whitelist: every pulser observable class; scenarios: pi / pi-half pulses on single atoms and Ramsey "
-                "sequences with per-atom time-varying phases, closed-form expectation, run and resume; non-trivial = non-identity permutation")
+                "sequences with per-atom time-varying phases, closed-form expectation, run and resume; signed: pulser sequences of "
+                "3-6 atoms through PulserData with user interaction matrices of both signs (Rydberg and XY, with/without cutoff) "
+                "and XY register couplings under an in-plane magnetic field (both signs of 1-3cos^2, optional SLM mask), "
+                "permutation chosen by the unmodified optimiser, reordering on vs off vs dense reference; "
+                "non-trivial = non-identity permutation")
     ctx.trusted_base += ["hand model Model/QubitOrder.v (validated by the correspondences of this run)",
                          "observation points: arguments of make_H/update_H, well_prepared_qubits_filter, Results returned"]
     ctx.assumptions += [f"switch scenarios: 3-5 atoms on a 7-8 um line in register order; a case is judged only if the same forced "
                         f"chain order with a constant matrix agrees on/off to {SWITCH_COND} and the reordering-off run matches the "
                         f"dense reference to {SWITCH_COND}; tolerance {SWITCH_TOL}",
+                        f"signed-coupling cases: the make_H comparison is bit-exact; reported values are judged only if the "
+                        f"reordering-off run matches the dense reference to {SIGNED_COND}, tolerance {SIGNED_TOL} (observed on the "
+                        f"unchanged code: <= 3e-4)",
                         "end-to-end scenarios use non-interacting atoms with exact pi / pi-half pulses (tolerance 1e-4, "
                         "config precision 1e-9); interaction routing is checked exactly at make_H",
                         "relabelling covariance of the dynamics itself (ext theorem relabel_covariance) is not proved here"]
@@ -983,6 +1203,15 @@ def replay(ctx, path):
     if rp.get("stage") == "values":
         print("replay values:", value_search(ctx, sc, {}))
         return
+    if rp.get("stage") == "signed":
+        out = run_signed_case(rp["case"])
+        print("replay signed: permutation chosen", out["on"]["perm"], "signs", out["signs"])
+        for k in ("on", "off", "dense"):
+            print(f"  {k:5s} occupation", [round(x, 4) for x in out[k]["occupation"]], "energy", out[k].get("energy"))
+        print("  make_H (reordering on), first call:", out["on"]["make_H"][0])
+        print("  make_H (reordering off), first call:", out["off"]["make_H"][0])
+        print("judged:", judge_signed(ctx, rp["case"], out))
+        return
     s = run_scenario(sc, "run")
     print("replay run:", s)
     judge_scenario(ctx, sc, "run", s)
@@ -1001,6 +1230,10 @@ META = {
              "by base tag, permute_results returns every per-atom result and atom_order in register order; every exit "
              "(run, resume) un-permutes once; every whitelisted tag is covered. Refuted (machine-checked witnesses) for "
              "the legacy switches: F-03 drives/mask, F-04 suffixed tags, F-10 resume. Validated only: which variant the "
-             "real code follows (exact correspondence), end-to-end numbers on small analytic scenarios."),
+             "real code follows (exact correspondence), end-to-end numbers on small analytic scenarios; that choosing the "
+             "order has no other effect than the permutation -- with the unmodified optimiser and interaction matrices "
+             "with entries of both signs (user matrices, XY register couplings under an in-plane field, SLM) the matrix "
+             "every make_H call receives with reordering on is bit-identical to the permuted reordering-off matrix, and "
+             "occupation / correlations / energy agree on vs off vs an independent dense evolution."),
     "note": "Trusted: Coq kernel+VM, hand model (validated every run), pulser Results API; dynamics themselves are C02's.",
 }
